@@ -225,7 +225,7 @@ def conc_buffer(P, w):
     from pytezos.michelson import forge as F
     from ref import michbin
 
-    data = bytes(w['data'])
+    data = bytes(w['data']) + bytes(P.get('tail', []))
     try:
         ref = michbin.decode(data)
         ref_ok = True
@@ -589,6 +589,11 @@ def obligations(tier):
                               bounds=f'every byte string of length {n} starting with tag {first}', targets=TARGETS))
             obs.append(Ob(f'buffers/n={n}/tag>10', 'bvx', sym_buffer_unknown_tag, conc_buffer, P={'n': n}, opts={'W': 64},
                           timeout=60, bounds=f'every byte string of length {n} whose first byte is > 10', targets=TARGETS))
+    # structured long buffers: an arbitrary node tag and primitive byte in front of the generic-primitive layout (args block, annots block)
+    for lname, tail in (('empty-args-empty-annots', [0, 0, 0, 0, 0, 0, 0, 0]), ('args=[1]-empty-annots', [0, 0, 0, 2, 0, 1, 0, 0, 0, 0]),
+                        ('empty-args-annot', [0, 0, 0, 0, 0, 0, 0, 2, 0x25, 0x61])):
+        obs.append(Ob(f'buffers/any-tag+generic-layout/{lname}', 'bvx', sym_buffer_layout, conc_buffer, P={'tail': tail}, opts={'W': 64}, timeout=120 if q else 900,
+                      bounds='first byte (node tag) and second byte (primitive) symbolic over 0..255, followed by the fixed generic-primitive layout', targets=TARGETS))
     shapes = dict(SHAPES_QUICK)
     if not q:
         shapes.update(SHAPES_THOROUGH)
@@ -604,6 +609,31 @@ def obligations(tier):
                       P={'shape': shapes[name], 'offset': off}, opts={'W': 128}, timeout=120 if q else 600,
                       bounds=f'{note} of shape {name} changed by any non-zero delta (low byte)', targets=TARGETS))
     return obs
+
+
+def sym_buffer_layout(P, ex):
+    """[tag, prim] symbolic + fixed tail: accepted iff the reference decoder accepts."""
+    from ref import michbin
+    from vf import bvx
+
+    F = _load_forge()
+    head = ex.bytes('data', 2)
+    data = bvx.SymBytes(list(head.items) + list(P['tail']))
+    try:
+        michbin.decode(data, symbolic_prims=True)
+        ref_ok = True
+    except michbin.Reject:
+        ref_ok = False
+    try:
+        F.unforge_micheline(data)
+        ok = True
+    except (bvx.Abort, bvx.Found, bvx.Inconclusive):
+        raise
+    except Exception:
+        ok = False
+    if ok != ref_ok:
+        ex.fail_here('pytezos accepts a byte string Tezos rejects' if ok else 'pytezos rejects a valid encoding')
+    ex.check(True)
 
 
 def sym_buffer_unknown_tag(P, ex):
